@@ -473,8 +473,8 @@ def filterKind (n : Str) : FilterKind :=
   else if n = cs!"array" || n = cs!"keyvalue" then .unmodelled
   else .unknown
 
-/-- `GrokFilter::try_from(&Function)`. `nullIf()` with an empty argument list indexes `args[0]`
-    and panics. -/
+/-- `GrokFilter::try_from(&Function)`. `nullIf()` with an empty argument list is rejected
+    (`args.first()`; it used to index `args[0]` and panic — fixed in /repo). -/
 def filterOf (f : Fn) : Out Filter :=
   match filterKind f.name with
   | .scale =>
@@ -493,7 +493,7 @@ def filterOf (f : Fn) : Out Filter :=
   | .nullIf =>
     (match f.args with
      | none => .err .invalidArgs
-     | some [] => .panic
+     | some [] => .err .invalidArgs
      | some (.lit (.str b) :: _) => .ok (.nullIf b)
      | some _ => .err .invalidArgs)
   | .unmodelled => .oom
@@ -916,7 +916,8 @@ inductive FRes where
 
 def f64_1000 : Nat := F64.ofInt 1000
 
-/-- the `Scale` arm: `x * (scale_factor * 1000.0 / 1000.0)`, `NotNan::new(..).expect("NaN")`;
+/-- the `Scale` arm: `x * (scale_factor * 1000.0 / 1000.0)`, `NotNan::new(..)` failing is
+    `FailedToApplyFilter` (it used to be `.expect("NaN")`, a panic — fixed in /repo);
     `x = none` is a NaN parsed from the text. -/
 def scaleBy (k : Nat) (x : Option Nat) : FRes :=
   let k' : Option Nat := (F64.mul k f64_1000).bind (fun y => F64.div y f64_1000)
@@ -924,8 +925,8 @@ def scaleBy (k : Nat) (x : Option Nat) : FRes :=
   | some x, some k' =>
     (match F64.mul x k' with
      | some r => .val (floatOrInt r)
-     | none => .panic)
-  | _, _ => .panic
+     | none => .failed)
+  | _, _ => .failed
 
 /-- `apply_filter` -/
 def applyFilter (P : Prims) (v : SV) (f : Filter) : FRes :=
